@@ -637,7 +637,7 @@ def jmp(ir, instr, reg_or_imm):
         # PC <- PC31..28||0000||(target24)23..1||0
         new_PC = ExprAssign(PC, ExprOp("+", ExprOp("&", PC, ExprInt(0xF0000000, 32)), reg_or_imm))
 
-    return [new_PC, ExprAssign(ir.IRDst, new_PC)], []
+    return [new_PC, ExprAssign(ir.IRDst, new_PC.src)], []
 
 manual_functions["jmp"] = jmp
 
